@@ -1425,6 +1425,10 @@ class ContactHandler(Messenger, dbus.service.Object):
         return str(self._add_queue_item(item))
 
     def _add_queue_item(self, item):
+        if self._in_term:
+            # no new transfer is started once terminating, so it would
+            # neither be sent nor reported and would keep the session open
+            raise RuntimeError('Session is terminating, no new transfers')
         if item.transfer_id is None:
             item.transfer_id = self.next_id()
 
